@@ -8,26 +8,26 @@ namespace Kingdon.C15
 open Kingdon Kingdon.SrcEq
 
 /-- **attribute access with any spelling, in the source**: the python `__getattr__` returns the model's coefficient for every
-    spelling over one-digit labels — the stored coefficient for the canonical spelling, its negative for an odd permutation, 0 for
+    spelling over single hex digits (also the labels 14 = `e`, 15 = `f`) — the stored coefficient for the canonical spelling, its negative for an odd permutation, 0 for
     an absent blade and for a spelling that is no blade of the algebra — and never raises -/
-theorem source_getattr_is_model {α : Type} [Neg α] [Zero α] (c : Cfg) (h : c.admissible = true) (h14 : ∀ v ∈ c.vecs, v < 14)
-    (ks : List Nat) (vs : List α) (hlen : ks.length = vs.length) (sp : List Nat) (hsp : ∀ l ∈ sp, l < 14) :
+theorem source_getattr_is_model {α : Type} [Neg α] [Zero α] (c : Cfg) (h : c.admissible = true)
+    (ks : List Nat) (vs : List α) (hlen : ks.length = vs.length) (sp : List Nat) (hsp : ∀ l ∈ sp, l < 16) :
     Src.mv_getattr (algOf c) (ks.map Int.ofNat) vs (pyName sp) = .ok (Con.getattr c (ks, vs) sp) :=
-  mv_getattr_eq c (Cfg.adm_of_admissible c h) h14 ks vs hlen sp hsp
+  mv_getattr_eq c (Cfg.adm_of_admissible c h) (vecs16_of_admissible c h) ks vs hlen sp hsp
 
 /-- `asfullmv` in the source: every blade of the algebra, absent ones as 0, in canonical or binary order -/
-theorem source_asfullmv_is_model {α : Type} [Neg α] [Zero α] (c : Cfg) (h : c.admissible = true) (h14 : ∀ v ∈ c.vecs, v < 14)
+theorem source_asfullmv_is_model {α : Type} [Neg α] [Zero α] (c : Cfg) (h : c.admissible = true)
     (x : MV α) (canonical : Bool) :
     Src.mv_asfullmv (algOf c) ((x.map (·.1)).map Int.ofNat) (x.map (·.2)) canonical =
       .ok (((asfullmv c canonical x).map (·.1)).map Int.ofNat, (asfullmv c canonical x).map (·.2)) :=
-  mv_asfullmv_eq c h h14 x canonical
+  mv_asfullmv_eq c h x canonical
 
 /-- `grade(*gs)` in the source: the stored coefficients of the requested grades in canonical order -/
-theorem source_grade_is_model {α : Type} [Neg α] [Zero α] (c : Cfg) (h : c.admissible = true) (h14 : ∀ v ∈ c.vecs, v < 14)
+theorem source_grade_is_model {α : Type} [Neg α] [Zero α] (c : Cfg) (h : c.admissible = true)
     (x : MV α) (gs : List Nat) (hgs : gs.Pairwise (· < ·)) (hd : ∀ g ∈ gs, g ≤ c.d) :
     Src.mv_grade (algOf c) ((x.map (·.1)).map Int.ofNat) (x.map (·.2)) (gs.map Int.ofNat) =
       .ok (((gradeSel c gs x).map (·.1)).map Int.ofNat, (gradeSel c gs x).map (·.2)) :=
-  mv_grade_eq c h h14 x gs hgs hd
+  mv_grade_eq c h x gs hgs hd
 
 /-- non-vacuity: `x.e31` of 7 e13 + 2 e1 in the 3-D Euclidean algebra is -7, and `x.e9` (no blade of the algebra) is 0 -/
 example : (Src.mv_getattr (algOf (Cfg.default [1, 1, 1] 1)) [5, 1] [(7 : Int), 2] "e31".toList).toOption = some (-7) ∧
